@@ -1,3 +1,1069 @@
 import SrModel.Spring
+import Mathlib.Tactic.Ring
+import Mathlib.Tactic.Linarith
+import Mathlib.Tactic.Tauto
+import Mathlib.Algebra.BigOperators.Group.Finset.Basic
+import Mathlib.Algebra.BigOperators.Ring.Finset
+
+/-!
+# Lemmas about the spring-network model
+
+Part 1: quick-find merging along a *tree-ordered* edge list (every edge goes from a smaller node
+to a node larger than every node mentioned before it — the order in which `make_network` adds
+edges) has a closed description through the parent of each node (`mergeAlong_spec`).
+-/
 namespace SrModel.Spring
+
+/-! ## tree order -/
+
+/-- `TreeOrd b es`: the child ends `e.j` are strictly increasing, at least `b`, and each edge
+goes from a smaller node to its child. -/
+def TreeOrd : Nat → List Edge → Prop
+  | _, [] => True
+  | b, e :: es => e.i < e.j ∧ b ≤ e.j ∧ TreeOrd (e.j + 1) es
+
+theorem TreeOrd.mono {es : List Edge} {b c : Nat} (h : TreeOrd c es) (hbc : b ≤ c) : TreeOrd b es := by
+  cases es with
+  | nil => trivial
+  | cons e es => exact ⟨h.1, by have := h.2.1; omega, h.2.2⟩
+
+theorem TreeOrd.lt {es : List Edge} {b : Nat} (h : TreeOrd b es) : ∀ e ∈ es, e.i < e.j ∧ b ≤ e.j := by
+  induction es generalizing b with
+  | nil => intro e he; cases he
+  | cons a es ih =>
+    intro e he
+    rcases List.mem_cons.1 he with rfl | he
+    · exact ⟨h.1, h.2.1⟩
+    · have := ih h.2.2 e he
+      exact ⟨this.1, by have := h.2.1; omega⟩
+
+/-- a node is the child end of at most one edge -/
+theorem TreeOrd.child_inj {es : List Edge} {b : Nat} (h : TreeOrd b es) :
+    ∀ e₁ ∈ es, ∀ e₂ ∈ es, e₁.j = e₂.j → e₁ = e₂ := by
+  induction es generalizing b with
+  | nil => intro e he; cases he
+  | cons a es ih =>
+    intro e₁ h₁ e₂ h₂ hj
+    rcases List.mem_cons.1 h₁ with r1 | m1 <;> rcases List.mem_cons.1 h₂ with r2 | m2
+    · rw [r1, r2]
+    · have := (h.2.2.lt e₂ m2).2; rw [r1] at hj; omega
+    · have := (h.2.2.lt e₁ m1).2; rw [r2] at hj; omega
+    · exact ih h.2.2 e₁ m1 e₂ m2 hj
+
+theorem TreeOrd.filter {es : List Edge} {b : Nat} (q : Edge → Bool) (h : TreeOrd b es) :
+    TreeOrd b (es.filter q) := by
+  induction es generalizing b with
+  | nil => trivial
+  | cons a es ih =>
+    by_cases hq : q a = true
+    · simp only [List.filter_cons, hq, if_true]
+      exact ⟨h.1, h.2.1, ih h.2.2⟩
+    · simp only [List.filter_cons, hq]
+      exact (ih h.2.2).mono (by have := h.2.1; omega)
+
+theorem TreeOrd.append {xs ys : List Edge} {b c : Nat} (hx : TreeOrd b xs)
+    (hlt : ∀ e ∈ xs, e.j < c) (hy : TreeOrd c ys) (hbc : b ≤ c) : TreeOrd b (xs ++ ys) := by
+  induction xs generalizing b with
+  | nil => exact hy.mono hbc
+  | cons a xs ih =>
+    refine ⟨hx.1, hx.2.1, ih hx.2.2 (fun e he => hlt e (List.mem_cons_of_mem _ he)) ?_⟩
+    have := hlt a (List.mem_cons_self ..); omega
+
+/-- relabelling the parent ends by a map that does not increase and fixes the child ends -/
+theorem TreeOrd.relabel {es : List Edge} {b : Nat} (lab : Lab) (h : TreeOrd b es)
+    (hle : ∀ n, lab.get n ≤ n) (hfix : ∀ e ∈ es, lab.get e.j = e.j) :
+    TreeOrd b (es.map (relabel lab)) := by
+  induction es generalizing b with
+  | nil => trivial
+  | cons a es ih =>
+    have hj : lab.get a.j = a.j := hfix a (List.mem_cons_self ..)
+    refine ⟨?_, ?_, ?_⟩
+    · show lab.get a.i < lab.get a.j
+      rw [hj]; exact Nat.lt_of_le_of_lt (hle _) h.1
+    · show b ≤ lab.get a.j
+      rw [hj]; exact h.2.1
+    · show TreeOrd (lab.get a.j + 1) _
+      rw [hj]; exact ih h.2.2 (fun e he => hfix e (List.mem_cons_of_mem _ he))
+
+/-! ## merging -/
+
+/-- labels never exceed the node, and nodes from `b` on are still their own label -/
+structure Below (b : Nat) (lab : Lab) : Prop where
+  le : ∀ n, lab.get n ≤ n
+  fix : ∀ n, b ≤ n → lab.get n = n
+
+theorem below_id (b : Nat) : Below b Lab.id := ⟨fun _ => Nat.le_refl _, fun _ _ => rfl⟩
+
+/-- merging a fresh child `j` into the class of `i` only changes the label of `j` -/
+theorem merge_fresh {b i j : Nat} {lab : Lab} (hb : Below b lab) (hij : i < j) (hbj : b ≤ j) (n : Nat) :
+    (merge lab (lab.get i) (lab.get j)).get n = if n = j then lab.get i else lab.get n := by
+  have hj : lab.get j = j := hb.fix j hbj
+  have hi : lab.get i < j := Nat.lt_of_le_of_lt (hb.le i) hij
+  show (if lab.get n = max (lab.get i) (lab.get j) then min (lab.get i) (lab.get j) else lab.get n) = _
+  rw [hj, Nat.max_eq_right (Nat.le_of_lt hi), Nat.min_eq_left (Nat.le_of_lt hi)]
+  by_cases hn : n = j
+  · subst hn; simp [hj]
+  · have : lab.get n ≠ j := by
+      intro h
+      by_cases hbn : b ≤ n
+      · rw [hb.fix n hbn] at h; exact hn h
+      · have := hb.le n; omega
+    simp [hn, this]
+
+theorem below_step {b i j : Nat} {lab : Lab} (p : Bool) (hb : Below b lab) (hij : i < j) (hbj : b ≤ j) :
+    Below (j + 1) (if p then merge lab (lab.get i) (lab.get j) else lab) := by
+  cases p with
+  | false => exact ⟨hb.le, fun n hn => hb.fix n (by omega)⟩
+  | true =>
+    refine ⟨fun n => ?_, fun n hn => ?_⟩
+    · simp only [if_true]; rw [merge_fresh hb hij hbj]
+      by_cases h : n = j
+      · subst h; simp; exact Nat.le_trans (hb.le i) (Nat.le_of_lt hij)
+      · simp [h]; exact hb.le n
+    · simp only [if_true]; rw [merge_fresh hb hij hbj]
+      have : n ≠ j := by omega
+      simp [this]; exact hb.fix n (by omega)
+
+/-- **closed description of merging along a tree-ordered list.** -/
+theorem mergeAlong_spec (p : Edge → Bool) (es : List Edge) :
+    ∀ (b : Nat) (lab : Lab), TreeOrd b es → Below b lab →
+      (∀ n, (mergeAlong p lab es).get n ≤ n) ∧
+      (∀ n, (∀ e ∈ es, e.j ≠ n) → (mergeAlong p lab es).get n = lab.get n) ∧
+      (∀ e ∈ es, (mergeAlong p lab es).get e.j = if p e then (mergeAlong p lab es).get e.i else e.j) := by
+  induction es with
+  | nil =>
+    intro b lab _ hb
+    exact ⟨hb.le, fun _ _ => rfl, fun e he => by cases he⟩
+  | cons a es ih =>
+    intro b lab ht hb
+    have hb' := below_step (p a) hb ht.1 ht.2.1
+    obtain ⟨h1, h2, h3⟩ := ih (a.j + 1) _ ht.2.2 hb'
+    have hlab' : ∀ n, n ≠ a.j →
+        (if p a then merge lab (lab.get a.i) (lab.get a.j) else lab).get n = lab.get n := by
+      intro n hn
+      cases hp : p a with
+      | false => simp
+      | true => simp only [if_true]; rw [merge_fresh hb ht.1 ht.2.1]; simp [hn]
+    have hnc : ∀ n, n ≤ a.j → ∀ e ∈ es, e.j ≠ n := by
+      intro n hn e he
+      have := (ht.2.2.lt e he).2; omega
+    refine ⟨h1, ?_, ?_⟩
+    · intro n hn
+      show (mergeAlong p _ es).get n = _
+      rw [h2 n (fun e he => hn e (List.mem_cons_of_mem _ he))]
+      exact hlab' n (fun h => hn a (List.mem_cons_self ..) h.symm)
+    · intro e he
+      rcases List.mem_cons.1 he with rfl | he
+      · show (mergeAlong p _ es).get e.j = if p e then (mergeAlong p _ es).get e.i else e.j
+        rw [h2 e.j (hnc e.j (Nat.le_refl _)), h2 e.i (hnc e.i (Nat.le_of_lt ht.1)),
+          hlab' e.i (Nat.ne_of_lt ht.1)]
+        cases hp : p e with
+        | false => simp; exact hb.fix _ ht.2.1
+        | true => simp only [if_true]; rw [merge_fresh hb ht.1 ht.2.1]; simp
+      · exact h3 e he
+
+/-! ## consequences for a start from the identity -/
+
+section FromId
+variable {p : Edge → Bool} {es : List Edge} {b : Nat}
+
+theorem mergeId_le (h : TreeOrd b es) (n : Nat) : (mergeAlong p Lab.id es).get n ≤ n :=
+  (mergeAlong_spec p es b Lab.id h (below_id b)).1 n
+
+theorem mergeId_nochild (h : TreeOrd b es) {n : Nat} (hn : ∀ e ∈ es, e.j ≠ n) :
+    (mergeAlong p Lab.id es).get n = n :=
+  (mergeAlong_spec p es b Lab.id h (below_id b)).2.1 n hn
+
+theorem mergeId_child (h : TreeOrd b es) {e : Edge} (he : e ∈ es) :
+    (mergeAlong p Lab.id es).get e.j = if p e then (mergeAlong p Lab.id es).get e.i else e.j :=
+  (mergeAlong_spec p es b Lab.id h (below_id b)).2.2 e he
+
+/-- induction along the parent relation -/
+theorem parent_induct (h : TreeOrd b es) (Q : Nat → Prop)
+    (h0 : ∀ n, (∀ e ∈ es, e.j ≠ n) → Q n) (h1 : ∀ e ∈ es, Q e.i → Q e.j) : ∀ n, Q n := by
+  intro n
+  induction n using Nat.strong_induction_on with
+  | _ n ih =>
+    by_cases hc : ∃ e ∈ es, e.j = n
+    · obtain ⟨e, he, rfl⟩ := hc
+      exact h1 e he (ih e.i (h.lt e he).1)
+    · exact h0 n (fun e he hj => hc ⟨e, he, hj⟩)
+
+theorem mergeId_idem (h : TreeOrd b es) (n : Nat) :
+    (mergeAlong p Lab.id es).get ((mergeAlong p Lab.id es).get n) = (mergeAlong p Lab.id es).get n := by
+  refine parent_induct h (fun n => (mergeAlong p Lab.id es).get ((mergeAlong p Lab.id es).get n) =
+    (mergeAlong p Lab.id es).get n) ?_ ?_ n
+  · intro n hn; simp only [mergeId_nochild h hn]
+  · intro e he ih
+    simp only [mergeId_child h he]
+    cases hp : p e with
+    | true => simpa using ih
+    | false =>
+      have := mergeId_child (p := p) h he
+      rw [hp] at this; simpa using this
+
+/-- a set of nodes that contains the parent ends of the merged edges is closed under the label map -/
+theorem mergeId_closed (h : TreeOrd b es) (S : Nat → Prop) (hS : ∀ e ∈ es, p e = true → S e.i)
+    {n : Nat} (hn : S n) : S ((mergeAlong p Lab.id es).get n) := by
+  revert hn
+  refine parent_induct h (fun n => S n → S ((mergeAlong p Lab.id es).get n)) ?_ ?_ n
+  · intro n hn hs; rwa [mergeId_nochild h hn]
+  · intro e he ih hs
+    rw [mergeId_child h he]
+    cases hp : p e with
+    | true => simp only [if_true]; exact ih (hS e he hp)
+    | false => simpa using hs
+
+end FromId
+
+/-! ## `remove_rigid` never raises on a tree-ordered network whose rigid links do not end at a BC node -/
+
+theorem parallel_eq_one {all pre rest : List Edge} {e : Edge} {lab : Lab} {b : Nat}
+    (hall : all = pre ++ e :: rest) (ht : TreeOrd b (e :: rest)) (hb : Below b lab)
+    (hpre : ∀ x ∈ pre, x.i < b ∧ x.j < b) :
+    parallel all lab (lab.get e.i) (lab.get e.j) = 1 := by
+  have hj : lab.get e.j = e.j := hb.fix _ ht.2.1
+  have hi : lab.get e.i < e.j := Nat.lt_of_le_of_lt (hb.le _) ht.1
+  subst hall
+  unfold parallel
+  rw [List.countP_append, List.countP_cons]
+  have h1 : List.countP (fun x => sameEnds (lab.get e.i) (lab.get e.j) (lab.get x.i) (lab.get x.j)) pre = 0 := by
+    rw [List.countP_eq_zero]
+    intro x hx
+    have := hpre x hx
+    have h1 := hb.le x.i
+    have h2 := hb.le x.j
+    have hbj := ht.2.1
+    simp [sameEnds, hj]
+    omega
+  have h2 : List.countP (fun x => sameEnds (lab.get e.i) (lab.get e.j) (lab.get x.i) (lab.get x.j)) rest = 0 := by
+    rw [List.countP_eq_zero]
+    intro x hx
+    have hx' := ht.2.2.lt x hx
+    have hxj : lab.get x.j = x.j := hb.fix _ (by have := ht.2.1; omega)
+    simp [sameEnds, hj, hxj]
+    omega
+  rw [h1, h2]
+  simp [sameEnds]
+
+theorem rrGo_ok_aux (all : List Edge) (bcs : List Nat) (hbc : ∀ e ∈ all, e.isRigid = true → e.j ∉ bcs) :
+    ∀ (rest pre : List Edge) (lab : Lab) (b : Nat), all = pre ++ rest → TreeOrd b rest → Below b lab →
+      (∀ x ∈ pre, x.i < b ∧ x.j < b) →
+      rrGo all bcs lab rest = .ok (mergeAlong Edge.isRigid lab rest) := by
+  intro rest
+  induction rest with
+  | nil => intro pre lab b _ _ _ _; rfl
+  | cons e rest ih =>
+    intro pre lab b hall ht hb hpre
+    have hmem : e ∈ all := by rw [hall]; simp
+    have hall' : all = (pre ++ [e]) ++ rest := by rw [hall]; simp
+    have hpre' : ∀ x ∈ pre ++ [e], x.i < e.j + 1 ∧ x.j < e.j + 1 := by
+      intro x hx
+      rcases List.mem_append.1 hx with hx | hx
+      · have := hpre x hx; have := ht.2.1; omega
+      · have : x = e := by simpa using hx
+        subst this; have := ht.1; omega
+    have hb' := below_step (e.isRigid) hb ht.1 ht.2.1
+    have hrec := ih (pre ++ [e]) _ (e.j + 1) hall' ht.2.2 hb' hpre'
+    cases hr : e.isRigid with
+    | false =>
+      rw [hr] at hrec
+      simp only [rrGo, hr, mergeAlong]
+      simpa using hrec
+    | true =>
+      rw [hr] at hrec
+      have hj : lab.get e.j = e.j := hb.fix _ ht.2.1
+      have hi : lab.get e.i < e.j := Nat.lt_of_le_of_lt (hb.le _) ht.1
+      have hpar := parallel_eq_one hall ht hb hpre
+      have hnb : e.j ∉ bcs := hbc e hmem hr
+      have hmax : max (lab.get e.i) (lab.get e.j) = e.j := by rw [hj]; omega
+      have c1 : (bcs.contains (lab.get e.i) && bcs.contains (lab.get e.j)) = false := by
+        rw [hj]; simp [hnb]
+      have c2 : bcs.contains (max (lab.get e.i) (lab.get e.j)) = false := by
+        rw [hmax]; simp [hnb]
+      simp only [rrGo, hr, mergeAlong, if_true, hpar, c1, c2]
+      simpa using hrec
+
+theorem rrGo_ok {all : List Edge} {bcs : List Nat} {b : Nat} (ht : TreeOrd b all)
+    (hbc : ∀ e ∈ all, e.isRigid = true → e.j ∉ bcs) :
+    rrGo all bcs Lab.id all = .ok (mergeAlong Edge.isRigid Lab.id all) :=
+  rrGo_ok_aux all bcs hbc all [] Lab.id b (by simp) ht (below_id b) (by simp)
+
+/-! ## tree networks: the generic theorems about `reduce` -/
+
+/-- what the theorems need of a network: edges in tree order (node 0 is never a child), nodes
+`0..N-1`, the BC nodes are exactly the lower ends of the tubes, and no edge hangs below a BC node -/
+structure TreeNet (net : Net) (N : Nat) : Prop where
+  ord : TreeOrd 1 net.edges
+  nodes : net.nodes = List.range N
+  lt : ∀ e ∈ net.edges, e.j < N
+  tube_bc : ∀ e ∈ net.edges, e.isTube = true → e.j ∈ net.bcs
+  bc_tube : ∀ b ∈ net.bcs, ∃ e ∈ net.edges, e.j = b ∧ e.isTube = true
+  par_free : ∀ e ∈ net.edges, e.i ∉ net.bcs
+
+theorem isTube_not_rigid {e : Edge} (h : e.isTube = true) : e.isRigid = false := by
+  unfold Edge.isTube at h; unfold Edge.isRigid; split at h <;> simp_all
+
+theorem isTube_not_disc {e : Edge} (h : e.isTube = true) : e.isDisc = false := by
+  unfold Edge.isTube at h; unfold Edge.isDisc; split at h <;> simp_all
+
+theorem isSpring_of {e : Edge} (h1 : e.isRigid = false) (h2 : e.isDisc = false) : e.isSpring = true := by
+  unfold Edge.isRigid at h1; unfold Edge.isDisc at h2; unfold Edge.isSpring
+  rcases e with ⟨i, j, k⟩
+  cases k with
+  | tube id => rfl
+  | conn o => cases o <;> simp_all
+
+@[simp] theorem relabel_isTube (lab : Lab) (e : Edge) : (relabel lab e).isTube = e.isTube := rfl
+@[simp] theorem relabel_isDisc (lab : Lab) (e : Edge) : (relabel lab e).isDisc = e.isDisc := rfl
+@[simp] theorem relabel_isRigid (lab : Lab) (e : Edge) : (relabel lab e).isRigid = e.isRigid := rfl
+@[simp] theorem relabel_isSpring (lab : Lab) (e : Edge) : (relabel lab e).isSpring = e.isSpring := rfl
+@[simp] theorem relabel_i (lab : Lab) (e : Edge) : (relabel lab e).i = lab.get e.i := rfl
+@[simp] theorem relabel_j (lab : Lab) (e : Edge) : (relabel lab e).j = lab.get e.j := rfl
+@[simp] theorem relabel_kind (lab : Lab) (e : Edge) : (relabel lab e).kind = e.kind := rfl
+
+/-- the representative map of `remove_rigid` -/
+def rlab (net : Net) : Lab := mergeAlong Edge.isRigid Lab.id net.edges
+
+/-- the spring edges of the contracted network -/
+def springEdges (net : Net) : List Edge :=
+  (contractBy (rlab net) net).edges.filter (fun e => !e.isDisc)
+
+/-- component labels of the contracted network -/
+def clab (net : Net) : Lab := compLab (springEdges net)
+
+theorem rigidRep_eq (net : Net) : rigidRep net = (rlab net).get := rfl
+
+namespace TreeNet
+variable {net : Net} {N : Nat}
+
+theorem rigid_not_bc (h : TreeNet net N) : ∀ e ∈ net.edges, e.isRigid = true → e.j ∉ net.bcs := by
+  intro e he hr hb
+  obtain ⟨e', he', hj, ht⟩ := h.bc_tube _ hb
+  have := h.ord.child_inj e' he' e he hj
+  subst this
+  rw [isTube_not_rigid ht] at hr; cases hr
+
+theorem removeRigid_eq (h : TreeNet net N) : removeRigid net = .ok (contractBy (rlab net) net) := by
+  unfold removeRigid
+  rw [rrGo_ok h.ord h.rigid_not_bc]; rfl
+
+theorem reduce_eq (h : TreeNet net N) : reduce net = .ok (splitDisconnect (contractBy (rlab net) net)) := by
+  unfold reduce; rw [h.removeRigid_eq]
+
+theorem rlab_le (h : TreeNet net N) (n : Nat) : (rlab net).get n ≤ n := mergeId_le h.ord n
+
+theorem rlab_idem (h : TreeNet net N) (n : Nat) : (rlab net).get ((rlab net).get n) = (rlab net).get n :=
+  mergeId_idem h.ord n
+
+theorem rlab_fix (h : TreeNet net N) {e : Edge} (he : e ∈ net.edges) (hr : e.isRigid = false) :
+    (rlab net).get e.j = e.j := by
+  have := mergeId_child (p := Edge.isRigid) h.ord he
+  rw [hr] at this; simpa [rlab] using this
+
+theorem rlab_not_bc (h : TreeNet net N) {n : Nat} (hn : n ∉ net.bcs) : (rlab net).get n ∉ net.bcs :=
+  mergeId_closed h.ord (fun n => n ∉ net.bcs) (fun e he _ => h.par_free e he) hn
+
+theorem _root_.SrModel.Spring.mem_springEdges {net : Net} {e' : Edge} :
+    e' ∈ springEdges net ↔ ∃ e ∈ net.edges, e.isRigid = false ∧ e.isDisc = false ∧ relabel (rlab net) e = e' := by
+  unfold springEdges contractBy
+  simp only [List.mem_filter, List.mem_map, Bool.not_eq_true']
+  constructor
+  · rintro ⟨⟨e, ⟨he, hr⟩, rfl⟩, hd⟩
+    exact ⟨e, he, hr, by simpa using hd, rfl⟩
+  · rintro ⟨e, he, hr, hd, rfl⟩
+    exact ⟨⟨e, ⟨he, hr⟩, rfl⟩, by simpa using hd⟩
+
+theorem springEdges_ord (h : TreeNet net N) : TreeOrd 1 (springEdges net) := by
+  unfold springEdges contractBy
+  apply TreeOrd.filter
+  apply TreeOrd.relabel _ (h.ord.filter _) h.rlab_le
+  intro e he
+  have := List.mem_filter.1 he
+  exact h.rlab_fix this.1 (by simpa using this.2)
+
+theorem clab_le (h : TreeNet net N) (n : Nat) : (clab net).get n ≤ n := mergeId_le h.springEdges_ord n
+
+theorem clab_idem (h : TreeNet net N) (n : Nat) : (clab net).get ((clab net).get n) = (clab net).get n :=
+  mergeId_idem h.springEdges_ord n
+
+theorem clab_edge (h : TreeNet net N) {e : Edge} (he : e ∈ springEdges net) :
+    (clab net).get e.j = (clab net).get e.i := by
+  have := mergeId_child (p := fun _ => true) h.springEdges_ord he
+  simpa [clab, compLab] using this
+
+theorem clab_nochild (h : TreeNet net N) {n : Nat} (hn : ∀ e ∈ springEdges net, e.j ≠ n) :
+    (clab net).get n = n := mergeId_nochild h.springEdges_ord hn
+
+/-- surviving nodes (their own representative) are closed under the component label -/
+theorem clab_surv (h : TreeNet net N) {n : Nat} (hn : (rlab net).get n = n) :
+    (rlab net).get ((clab net).get n) = (clab net).get n := by
+  refine mergeId_closed h.springEdges_ord (fun n => (rlab net).get n = n) ?_ hn
+  intro e' he' _
+  obtain ⟨e, _, _, _, rfl⟩ := mem_springEdges.1 he'
+  exact h.rlab_idem _
+
+end TreeNet
+
+theorem mem_splitDisconnect {n c : Net} :
+    c ∈ splitDisconnect n ↔ ∃ r ∈ n.nodes, (compLab (n.edges.filter (fun e => !e.isDisc))).get r = r ∧
+      component n (n.edges.filter (fun e => !e.isDisc)) (compLab (n.edges.filter (fun e => !e.isDisc))) r = c ∧
+      keep c = true := by
+  unfold splitDisconnect
+  simp only [List.mem_filter, List.mem_map, beq_iff_eq]
+  constructor
+  · rintro ⟨⟨r, ⟨hr, hc⟩, rfl⟩, hk⟩; exact ⟨r, hr, hc, rfl, hk⟩
+  · rintro ⟨r, hr, hc, rfl, hk⟩; exact ⟨⟨r, ⟨hr, hc⟩, rfl⟩, hk⟩
+
+/-- the component of root `r` in the contracted network -/
+def comp (net : Net) (r : Nat) : Net :=
+  component (contractBy (rlab net) net) (springEdges net) (clab net) r
+
+theorem mem_components {net c : Net} :
+    c ∈ splitDisconnect (contractBy (rlab net) net) ↔
+      ∃ r ∈ net.nodes, (rlab net).get r = r ∧ (clab net).get r = r ∧ comp net r = c ∧ keep c = true := by
+  rw [mem_splitDisconnect]
+  constructor
+  · rintro ⟨r, hr, hc, rfl, hk⟩
+    have := List.mem_filter.1 hr
+    exact ⟨r, this.1, by simpa using this.2, hc, rfl, hk⟩
+  · rintro ⟨r, hr, hl, hc, rfl, hk⟩
+    exact ⟨r, List.mem_filter.2 ⟨hr, by simpa using hl⟩, hc, rfl, hk⟩
+
+theorem mem_comp_nodes {net : Net} {r n : Nat} :
+    n ∈ (comp net r).nodes ↔ n ∈ net.nodes ∧ (rlab net).get n = n ∧ (clab net).get n = r := by
+  unfold comp component contractBy
+  simp only [List.mem_filter, beq_iff_eq]
+  tauto
+
+theorem mem_comp_edges {net : Net} {r : Nat} {e : Edge} :
+    e ∈ (comp net r).edges ↔ e ∈ springEdges net ∧ (clab net).get e.i = r := by
+  unfold comp component
+  simp [List.mem_filter]
+
+theorem mem_comp_bcs {net : Net} {r n : Nat} :
+    n ∈ (comp net r).bcs ↔ n ∈ net.bcs ∧ (clab net).get n = r := by
+  unfold comp component contractBy
+  simp [List.mem_filter]
+
+theorem isEmpty_false_of_mem {α} {l : List α} {x : α} (h : x ∈ l) : l.isEmpty = false := by
+  cases l with
+  | nil => cases h
+  | cons a l => rfl
+
+namespace TreeNet
+variable {net : Net} {N : Nat}
+
+theorem springEdges_spring (_h : TreeNet net N) {e : Edge} (he : e ∈ springEdges net) : e.isSpring = true := by
+  obtain ⟨e0, _, hr, hd, rfl⟩ := mem_springEdges.1 he
+  simpa using isSpring_of hr hd
+
+/-- a tube edge of the contracted network: upper end smaller, lower end a BC node of the same
+component, upper end not a BC node -/
+theorem tube_edge (h : TreeNet net N) {e : Edge} (he : e ∈ springEdges net) (ht : e.isTube = true) :
+    e.i < e.j ∧ e.j ∈ net.bcs ∧ e.i ∉ net.bcs ∧ (clab net).get e.j = (clab net).get e.i := by
+  obtain ⟨e0, he0, hr, hd, rfl⟩ := mem_springEdges.1 he
+  have ht0 : e0.isTube = true := by simpa using ht
+  have hj : (rlab net).get e0.j = e0.j := h.rlab_fix he0 hr
+  refine ⟨?_, ?_, ?_, h.clab_edge he⟩
+  · show (rlab net).get e0.i < (rlab net).get e0.j
+    rw [hj]; exact Nat.lt_of_le_of_lt (h.rlab_le _) (h.ord.lt e0 he0).1
+  · show (rlab net).get e0.j ∈ net.bcs
+    rw [hj]; exact h.tube_bc e0 he0 ht0
+  · exact h.rlab_not_bc (h.par_free e0 he0)
+
+/-- inside the component of `r`, merging along the component's own edges labels every node `r` -/
+theorem comp_connected_aux (h : TreeNet net N) (r : Nat) :
+    ∀ n, (clab net).get n = r → (compLab (comp net r).edges).get n = r := by
+  have hsub : ∀ e, e ∈ (comp net r).edges ↔ e ∈ springEdges net ∧ (clab net).get e.i = r :=
+    fun e => mem_comp_edges
+  have hord : TreeOrd 1 (comp net r).edges := by
+    unfold comp component; exact h.springEdges_ord.filter _
+  refine parent_induct h.springEdges_ord _ ?_ ?_
+  · intro n hn hc
+    rw [h.clab_nochild hn] at hc
+    subst hc
+    exact mergeId_nochild hord (fun e he => hn e ((hsub e).1 he).1)
+  · intro e he ih hc
+    rw [h.clab_edge he] at hc
+    have hmem : e ∈ (comp net r).edges := (hsub e).2 ⟨he, hc⟩
+    have := mergeId_child (p := fun _ => true) hord hmem
+    simp only [if_true] at this
+    unfold compLab
+    rw [this]
+    exact ih hc
+
+theorem comp_valid (h : TreeNet net N) {r : Nat} (hr : r ∈ net.nodes) (hl : (rlab net).get r = r)
+    (hc : (clab net).get r = r) (hk : keep (comp net r) = true) : validateSolve (comp net r) = .ok () := by
+  have h1 : (comp net r).edges.all Edge.isSpring = true := by
+    rw [List.all_eq_true]
+    intro e he
+    exact h.springEdges_spring (mem_comp_edges.1 he).1
+  have h2 : (comp net r).bcs.isEmpty = false := by
+    unfold keep at hk
+    simp only [Bool.and_eq_true, Bool.or_eq_true, Bool.not_eq_true', List.any_eq_true] at hk
+    rcases hk.2 with ⟨e, he, ht⟩ | hb
+    · have hm := mem_comp_edges.1 he
+      have := h.tube_edge hm.1 ht
+      exact isEmpty_false_of_mem (mem_comp_bcs.2 ⟨this.2.1, by rw [this.2.2.2]; exact hm.2⟩)
+    · exact hb
+  have h3 : connected (comp net r) = true := by
+    have hrn : r ∈ (comp net r).nodes := mem_comp_nodes.2 ⟨hr, hl, hc⟩
+    unfold connected
+    cases hn : (comp net r).nodes with
+    | nil => rw [hn] at hrn; cases hrn
+    | cons n0 ns =>
+      simp only [List.all_eq_true, beq_iff_eq]
+      intro m hm
+      have hm' : m ∈ (comp net r).nodes := by rw [hn]; exact List.mem_cons_of_mem _ hm
+      have h0' : n0 ∈ (comp net r).nodes := by rw [hn]; exact List.mem_cons_self ..
+      rw [h.comp_connected_aux r m (mem_comp_nodes.1 hm').2.2,
+        h.comp_connected_aux r n0 (mem_comp_nodes.1 h0').2.2]
+  simp [validateSolve, h1, h2, h3]
+
+/-- the contracted image of an edge of the original network that is a tube lies in exactly one component -/
+theorem tube_in_one (h : TreeNet net N) {e0 : Edge} (he0 : e0 ∈ net.edges) (ht : e0.isTube = true) :
+    ∃ c ∈ splitDisconnect (contractBy (rlab net) net), relabel (rlab net) e0 ∈ c.edges ∧
+      ∀ c' ∈ splitDisconnect (contractBy (rlab net) net), relabel (rlab net) e0 ∈ c'.edges → c' = c := by
+  have hE : relabel (rlab net) e0 ∈ springEdges net :=
+    mem_springEdges.2 ⟨e0, he0, isTube_not_rigid ht, isTube_not_disc ht, rfl⟩
+  let r := (clab net).get ((rlab net).get e0.i)
+  have hEc : relabel (rlab net) e0 ∈ (comp net r).edges := mem_comp_edges.2 ⟨hE, rfl⟩
+  have hsurv : (rlab net).get r = r := h.clab_surv (h.rlab_idem _)
+  have hrN : r ∈ net.nodes := by
+    rw [h.nodes, List.mem_range]
+    have a := h.clab_le ((rlab net).get e0.i)
+    have b := h.rlab_le e0.i
+    have c := (h.ord.lt e0 he0).1
+    have d := h.lt e0 he0
+    show (clab net).get ((rlab net).get e0.i) < N
+    omega
+  have hk : keep (comp net r) = true := by
+    unfold keep
+    simp only [Bool.and_eq_true, Bool.or_eq_true, Bool.not_eq_true', List.any_eq_true]
+    exact ⟨isEmpty_false_of_mem hEc, Or.inl ⟨_, hEc, by simpa using ht⟩⟩
+  refine ⟨comp net r, mem_components.2 ⟨r, hrN, hsurv, h.clab_idem _, rfl, hk⟩, hEc, ?_⟩
+  intro c' hc' hE'
+  obtain ⟨r', _, _, _, rfl, _⟩ := mem_components.1 hc'
+  have := (mem_comp_edges.1 hE').2
+  show comp net r' = comp net r
+  rw [← this]; rfl
+
+theorem nodes_nodup (h : TreeNet net N) : net.nodes.Nodup := by
+  rw [h.nodes]; exact List.nodup_range
+
+/-- node sets of distinct returned components are disjoint -/
+theorem comps_disjoint (h : TreeNet net N) :
+    (splitDisconnect (contractBy (rlab net) net)).Pairwise (fun c d => ∀ n, n ∈ c.nodes → n ∉ d.nodes) := by
+  unfold splitDisconnect
+  apply List.Pairwise.filter
+  rw [List.pairwise_map]
+  have hnd : ((contractBy (rlab net) net).nodes.filter
+      (fun n => (compLab ((contractBy (rlab net) net).edges.filter (fun e => !e.isDisc))).get n == n)).Nodup := by
+    apply List.Nodup.sublist List.filter_sublist
+    unfold contractBy
+    exact List.Nodup.sublist List.filter_sublist h.nodes_nodup
+  refine List.Pairwise.imp ?_ hnd
+  intro a b hab n hna hnb
+  unfold component at hna hnb
+  simp only [List.mem_filter, beq_iff_eq] at hna hnb
+  exact hab (hna.2.symm.trans hnb.2)
+
+end TreeNet
+
+/-! ## the network of `make_network` is a tree network -/
+
+theorem tubesFrom_mem {c tid n : Nat} {t : TubeRec} (h : t ∈ tubesFrom c tid n) :
+    c ≤ t.top ∧ t.bot = t.top + 1 ∧ t.top + 2 ≤ c + 2 * n := by
+  induction n generalizing c tid with
+  | zero => cases h
+  | succ n ih =>
+    rcases List.mem_cons.1 h with rfl | h
+    · exact ⟨Nat.le_refl _, rfl, by show c + 2 ≤ _; omega⟩
+    · have := ih h; omega
+
+/-- the two edges `make_network` adds for a tube -/
+def tubePair (P : Nat) (o : Opt) (t : TubeRec) : List Edge :=
+  [⟨P, t.top, .conn o⟩, ⟨t.top, t.bot, .tube t.id⟩]
+
+theorem tubeEdges_eq (pr : PanelRec) : tubeEdges pr = pr.tubes.flatMap (tubePair pr.node pr.opt) := rfl
+
+theorem tubePairs_ord (P : Nat) (o : Opt) : ∀ (n c tid : Nat), P < c →
+    TreeOrd c ((tubesFrom c tid n).flatMap (tubePair P o)) := by
+  intro n
+  induction n with
+  | zero => intro c tid _; trivial
+  | succ n ih =>
+    intro c tid hP
+    simp only [tubesFrom, List.flatMap_cons, tubePair, List.cons_append, List.nil_append]
+    exact ⟨hP, Nat.le_refl _, Nat.lt_succ_self _, Nat.le_refl _, ih (c + 2) (tid + 1) (by omega)⟩
+
+theorem tubePairs_lt {P : Nat} {o : Opt} {n c tid : Nat} {e : Edge}
+    (he : e ∈ (tubesFrom c tid n).flatMap (tubePair P o)) : e.j < c + 2 * n := by
+  obtain ⟨t, ht, het⟩ := List.mem_flatMap.1 he
+  have := tubesFrom_mem ht
+  simp only [tubePair, List.mem_cons, List.not_mem_nil, or_false] at het
+  rcases het with rfl | rfl
+  · show t.top < _; omega
+  · show t.bot < _; omega
+
+theorem layoutFrom_mem {cn tid : Nat} {ps : List (Opt × Nat)} {pr : PanelRec}
+    (h : pr ∈ layoutFrom cn tid ps) :
+    cn ≤ pr.node ∧ ∀ t ∈ pr.tubes, pr.node < t.top ∧ t.bot = t.top + 1 := by
+  induction ps generalizing cn tid with
+  | nil => cases h
+  | cons a ps ih =>
+    obtain ⟨o, n⟩ := a
+    rcases List.mem_cons.1 h with rfl | h
+    · refine ⟨Nat.le_refl _, fun t ht => ?_⟩
+      have := tubesFrom_mem ht
+      exact ⟨by show cn < t.top; omega, this.2.1⟩
+    · have := ih h
+      exact ⟨by omega, this.2⟩
+
+theorem layoutEdges_ord (r : Opt) : ∀ (ps : List (Opt × Nat)) (cn tid : Nat), 1 ≤ cn →
+    TreeOrd cn (layoutEdges r (layoutFrom cn tid ps)) ∧
+    ∀ e ∈ layoutEdges r (layoutFrom cn tid ps), e.j + 1 < cn + nodeCount ps := by
+  intro ps
+  induction ps with
+  | nil => intro cn tid _; exact ⟨trivial, fun e he => by cases he⟩
+  | cons a ps ih =>
+    obtain ⟨o, n⟩ := a
+    intro cn tid hcn
+    obtain ⟨ih1, ih2⟩ := ih (cn + 1 + 2 * n) (tid + n) (by omega)
+    have hblock : TreeOrd cn (blockEdges r ⟨cn, o, tubesFrom (cn + 1) tid n⟩) :=
+      ⟨by show 0 < cn; omega, Nat.le_refl _, tubePairs_ord cn o n (cn + 1) tid (Nat.lt_succ_self _)⟩
+    have hlt : ∀ e ∈ blockEdges r ⟨cn, o, tubesFrom (cn + 1) tid n⟩, e.j < cn + 1 + 2 * n := by
+      intro e he
+      rcases List.mem_cons.1 he with rfl | he
+      · show cn < _; omega
+      · exact tubePairs_lt he
+    have heq : layoutEdges r (layoutFrom cn tid ((o, n) :: ps)) =
+        blockEdges r ⟨cn, o, tubesFrom (cn + 1) tid n⟩ ++ layoutEdges r (layoutFrom (cn + 1 + 2 * n) (tid + n) ps) := by
+      simp [layoutEdges, layoutFrom]
+    rw [heq]
+    refine ⟨hblock.append hlt ih1 (by omega), ?_⟩
+    intro e he
+    simp only [nodeCount]
+    rcases List.mem_append.1 he with he | he
+    · have := hlt e he
+      have : 1 ≤ nodeCount ps := by cases ps <;> simp [nodeCount]; omega
+      omega
+    · have := ih2 e he; omega
+
+theorem mem_layoutEdges {r : Opt} {lay : List PanelRec} {e : Edge} :
+    e ∈ layoutEdges r lay ↔ ∃ pr ∈ lay, e = ⟨0, pr.node, .conn r⟩ ∨
+      ∃ t ∈ pr.tubes, e = ⟨pr.node, t.top, .conn pr.opt⟩ ∨ e = ⟨t.top, t.bot, .tube t.id⟩ := by
+  simp only [layoutEdges, blockEdges, tubeEdges, List.mem_flatMap, List.mem_cons, List.not_mem_nil, or_false]
+
+theorem mem_layoutBCs {lay : List PanelRec} {b : Nat} :
+    b ∈ layoutBCs lay ↔ ∃ pr ∈ lay, ∃ t ∈ pr.tubes, t.bot = b := by
+  simp only [layoutBCs, List.mem_flatMap, List.mem_map]
+
+theorem buildNetwork_treeNet (r : Opt) (ps : List (Opt × Nat)) :
+    TreeNet (buildNetwork r ps) (nodeCount ps) := by
+  obtain ⟨hord, hlt⟩ := layoutEdges_ord r ps 1 0 (Nat.le_refl _)
+  have hmem : ∀ pr ∈ layout ps, 1 ≤ pr.node ∧ ∀ t ∈ pr.tubes, pr.node < t.top ∧ t.bot = t.top + 1 :=
+    fun pr hpr => layoutFrom_mem hpr
+  have hinj := hord.child_inj
+  refine ⟨hord, rfl, ?_, ?_, ?_, ?_⟩
+  · intro e he
+    have := hlt e he; omega
+  · intro e he ht
+    obtain ⟨pr, hpr, h | ⟨t, htt, h | h⟩⟩ := mem_layoutEdges.1 he
+    · subst h; cases ht
+    · subst h; cases ht
+    · subst h; exact mem_layoutBCs.2 ⟨pr, hpr, t, htt, rfl⟩
+  · intro b hb
+    obtain ⟨pr, hpr, t, htt, rfl⟩ := mem_layoutBCs.1 hb
+    exact ⟨⟨t.top, t.bot, .tube t.id⟩, mem_layoutEdges.2 ⟨pr, hpr, Or.inr ⟨t, htt, Or.inr rfl⟩⟩, rfl, rfl⟩
+  · intro e he hb
+    obtain ⟨pr', hpr', t', htt', hbot⟩ := mem_layoutBCs.1 hb
+    have hE' : (⟨t'.top, t'.bot, .tube t'.id⟩ : Edge) ∈ layoutEdges r (layout ps) :=
+      mem_layoutEdges.2 ⟨pr', hpr', Or.inr ⟨t', htt', Or.inr rfl⟩⟩
+    have hb' := ((hmem pr' hpr').2 t' htt').2
+    obtain ⟨pr, hpr, h | ⟨t, htt, h | h⟩⟩ := mem_layoutEdges.1 he
+    · subst h
+      have : t'.bot = 0 := hbot
+      omega
+    · subst h
+      have hR : (⟨0, pr.node, .conn r⟩ : Edge) ∈ layoutEdges r (layout ps) :=
+        mem_layoutEdges.2 ⟨pr, hpr, Or.inl rfl⟩
+      have := congrArg Edge.kind (hinj _ hR _ hE' (show pr.node = t'.bot from hbot.symm))
+      cases this
+    · subst h
+      have hP : (⟨pr.node, t.top, .conn pr.opt⟩ : Edge) ∈ layoutEdges r (layout ps) :=
+        mem_layoutEdges.2 ⟨pr, hpr, Or.inr ⟨t, htt, Or.inl rfl⟩⟩
+      have := congrArg Edge.kind (hinj _ hP _ hE' (show t.top = t'.bot from hbot.symm))
+      cases this
+
+/-! ## what the options do to the network of `make_network` -/
+
+section Layout
+variable (r : Opt) (ps : List (Opt × Nat))
+
+/-- the representative map of `remove_rigid` on the built network -/
+abbrev L : Lab := rlab (buildNetwork r ps)
+/-- component labels of the contracted built network -/
+abbrev C : Lab := clab (buildNetwork r ps)
+
+variable {r ps}
+
+theorem recvEdge_mem {pr : PanelRec} (hpr : pr ∈ layout ps) :
+    (⟨0, pr.node, .conn r⟩ : Edge) ∈ (buildNetwork r ps).edges :=
+  mem_layoutEdges.2 ⟨pr, hpr, Or.inl rfl⟩
+
+theorem panelEdge_mem {pr : PanelRec} (hpr : pr ∈ layout ps) {t : TubeRec} (ht : t ∈ pr.tubes) :
+    (⟨pr.node, t.top, .conn pr.opt⟩ : Edge) ∈ (buildNetwork r ps).edges :=
+  mem_layoutEdges.2 ⟨pr, hpr, Or.inr ⟨t, ht, Or.inl rfl⟩⟩
+
+theorem tubeEdge_mem {pr : PanelRec} (hpr : pr ∈ layout ps) {t : TubeRec} (ht : t ∈ pr.tubes) :
+    (⟨t.top, t.bot, .tube t.id⟩ : Edge) ∈ (buildNetwork r ps).edges :=
+  mem_layoutEdges.2 ⟨pr, hpr, Or.inr ⟨t, ht, Or.inr rfl⟩⟩
+
+theorem L_zero : (L r ps).get 0 = 0 :=
+  Nat.le_zero.1 ((buildNetwork_treeNet r ps).rlab_le 0)
+
+/-- the representative of a panel node: node 0 when the receiver option is rigid, else itself -/
+theorem L_panel {pr : PanelRec} (hpr : pr ∈ layout ps) :
+    (L r ps).get pr.node = if r = .rigid then 0 else pr.node := by
+  have := mergeId_child (p := Edge.isRigid) (buildNetwork_treeNet r ps).ord (recvEdge_mem (r := r) hpr)
+  change (L r ps).get pr.node = if (Edge.isRigid ⟨0, pr.node, .conn r⟩) = true then (L r ps).get 0 else pr.node at this
+  rw [this, L_zero]
+  cases r <;> simp [Edge.isRigid]
+
+/-- the representative of a tube top: the panel's representative when the panel option is rigid -/
+theorem L_top {pr : PanelRec} (hpr : pr ∈ layout ps) {t : TubeRec} (ht : t ∈ pr.tubes) :
+    (L r ps).get t.top = if pr.opt = .rigid then (L r ps).get pr.node else t.top := by
+  have := mergeId_child (p := Edge.isRigid) (buildNetwork_treeNet r ps).ord (panelEdge_mem (r := r) hpr ht)
+  change (L r ps).get t.top = if (Edge.isRigid ⟨pr.node, t.top, .conn pr.opt⟩) = true
+    then (L r ps).get pr.node else t.top at this
+  rw [this]
+  cases h : pr.opt <;> simp [Edge.isRigid]
+
+theorem L_bot {pr : PanelRec} (hpr : pr ∈ layout ps) {t : TubeRec} (ht : t ∈ pr.tubes) :
+    (L r ps).get t.bot = t.bot :=
+  (buildNetwork_treeNet r ps).rlab_fix (tubeEdge_mem (r := r) hpr ht) rfl
+
+theorem layout_facts {pr : PanelRec} (hpr : pr ∈ layout ps) :
+    1 ≤ pr.node ∧ ∀ t ∈ pr.tubes, pr.node < t.top ∧ t.bot = t.top + 1 := layoutFrom_mem hpr
+
+/-- a panel node is never a tube top -/
+theorem panel_ne_top {pr pr' : PanelRec} (hpr : pr ∈ layout ps) (hpr' : pr' ∈ layout ps)
+    {t : TubeRec} (ht : t ∈ pr.tubes) : pr'.node ≠ t.top := by
+  intro h
+  have := (buildNetwork_treeNet Opt.disconnect ps).ord.child_inj _
+    (recvEdge_mem (r := Opt.disconnect) hpr') _ (panelEdge_mem (r := Opt.disconnect) hpr ht) h
+  have h0 := congrArg Edge.i this
+  have := (layout_facts hpr).1
+  simp at h0; omega
+
+/-- in the contracted network the only spring edge hanging on the top or bottom node of a tube whose
+panel is not rigidly connected is the tube itself -/
+theorem edges_at_tube {pr : PanelRec} (hpr : pr ∈ layout ps) {t : TubeRec} (ht : t ∈ pr.tubes)
+    (ho : pr.opt ≠ .rigid) {e' : Edge} (he' : e' ∈ springEdges (buildNetwork r ps))
+    (hi : e'.i = t.top ∨ e'.i = t.bot) : e' = ⟨t.top, t.bot, .tube t.id⟩ := by
+  have hT := buildNetwork_treeNet r ps
+  obtain ⟨e0, he0, hr0, hd0, rfl⟩ := mem_springEdges.1 he'
+  have hfp := layout_facts hpr
+  have hft := hfp.2 t ht
+  have hLt : (L r ps).get t.top = t.top := by rw [L_top hpr ht]; simp [ho]
+  rcases hi with hi | hi
+  · have hi : (L r ps).get e0.i = t.top := hi
+    obtain ⟨pr', hpr', h | ⟨t', ht', h | h⟩⟩ := mem_layoutEdges.1 he0
+    · subst h
+      rw [show (L r ps).get 0 = 0 from L_zero] at hi; omega
+    · subst h
+      have hi : (L r ps).get pr'.node = t.top := hi
+      rw [L_panel hpr'] at hi
+      split at hi
+      · omega
+      · exact absurd hi (panel_ne_top hpr hpr' ht)
+    · subst h
+      have hi : (L r ps).get t'.top = t.top := hi
+      rw [L_top hpr' ht'] at hi
+      have htt : t'.top = t.top := by
+        split at hi
+        · rw [L_panel hpr'] at hi
+          split at hi
+          · omega
+          · exact absurd hi (panel_ne_top hpr hpr' ht)
+        · exact hi
+      have hb : t'.bot = t.bot := by rw [((layout_facts hpr').2 t' ht').2, hft.2, htt]
+      have := hT.ord.child_inj _ (tubeEdge_mem (r := r) hpr' ht') _ (tubeEdge_mem (r := r) hpr ht) hb
+      rw [this]
+      show (⟨(L r ps).get t.top, (L r ps).get t.bot, _⟩ : Edge) = _
+      rw [hLt, L_bot hpr ht]
+  · exfalso
+    have hi : (L r ps).get e0.i = t.bot := hi
+    have h1 : t.bot ∈ (buildNetwork r ps).bcs := mem_layoutBCs.2 ⟨pr, hpr, t, ht, rfl⟩
+    exact hT.rlab_not_bc (hT.par_free e0 he0) (hi ▸ h1)
+
+/-- **the component of a tube whose panel is disconnected** is the tube alone -/
+theorem disconnect_component {pr : PanelRec} (hpr : pr ∈ layout ps) (ho : pr.opt = .disconnect)
+    {t : TubeRec} (ht : t ∈ pr.tubes) :
+    comp (buildNetwork r ps) t.top ∈ splitDisconnect (contractBy (L r ps) (buildNetwork r ps)) ∧
+    (∀ n, n ∈ (comp (buildNetwork r ps) t.top).nodes ↔ n = t.top ∨ n = t.bot) ∧
+    (∀ e, e ∈ (comp (buildNetwork r ps) t.top).edges ↔ e = ⟨t.top, t.bot, .tube t.id⟩) ∧
+    (∀ n, n ∈ (comp (buildNetwork r ps) t.top).bcs ↔ n = t.bot) := by
+  have hT := buildNetwork_treeNet r ps
+  have hnr : pr.opt ≠ .rigid := by rw [ho]; simp
+  have hfp := layout_facts hpr
+  have hft := hfp.2 t ht
+  have hLt : (L r ps).get t.top = t.top := by rw [L_top hpr ht]; simp [hnr]
+  have hLb : (L r ps).get t.bot = t.bot := L_bot hpr ht
+  have hE : (⟨t.top, t.bot, .tube t.id⟩ : Edge) ∈ springEdges (buildNetwork r ps) := by
+    refine mem_springEdges.2 ⟨_, tubeEdge_mem (r := r) hpr ht, rfl, rfl, ?_⟩
+    show (⟨(L r ps).get t.top, (L r ps).get t.bot, _⟩ : Edge) = _
+    rw [hLt, hLb]
+  -- the top node is a root
+  have hCt : (C r ps).get t.top = t.top := by
+    apply hT.clab_nochild
+    intro e' he' hj
+    obtain ⟨e0, he0, hr0, hd0, rfl⟩ := mem_springEdges.1 he'
+    have hj : (L r ps).get e0.j = t.top := hj
+    rw [hT.rlab_fix he0 hr0] at hj
+    have := hT.ord.child_inj _ he0 _ (panelEdge_mem (r := r) hpr ht) hj
+    subst this
+    simp [Edge.isDisc, ho] at hd0
+  have hCb : (C r ps).get t.bot = t.top := by
+    have := hT.clab_edge hE
+    simpa [hCt] using this
+  -- nothing else has this label
+  have honly : ∀ n, (C r ps).get n = t.top → n = t.top ∨ n = t.bot := by
+    refine parent_induct hT.springEdges_ord _ ?_ ?_
+    · intro n hn hc
+      rw [hT.clab_nochild hn] at hc; exact Or.inl hc
+    · intro e he ih hc
+      rw [hT.clab_edge he] at hc
+      have := edges_at_tube hpr ht hnr he (ih hc)
+      subst this; exact Or.inr rfl
+  have htN : t.bot < nodeCount ps := hT.lt _ (tubeEdge_mem (r := r) hpr ht)
+  have hedges : ∀ e, e ∈ (comp (buildNetwork r ps) t.top).edges ↔ e = ⟨t.top, t.bot, .tube t.id⟩ := by
+    intro e
+    rw [mem_comp_edges]
+    constructor
+    · rintro ⟨he, hc⟩
+      exact edges_at_tube hpr ht hnr he (honly _ hc)
+    · rintro rfl; exact ⟨hE, hCt⟩
+  refine ⟨?_, ?_, hedges, ?_⟩
+  · refine mem_components.2 ⟨t.top, ?_, hLt, hCt, rfl, ?_⟩
+    · show t.top ∈ List.range (nodeCount ps)
+      rw [List.mem_range]; omega
+    · unfold keep
+      simp only [Bool.and_eq_true, Bool.or_eq_true, Bool.not_eq_true', List.any_eq_true]
+      have := (hedges _).2 rfl
+      exact ⟨isEmpty_false_of_mem this, Or.inl ⟨_, this, rfl⟩⟩
+  · intro n
+    rw [mem_comp_nodes]
+    constructor
+    · rintro ⟨_, _, hc⟩; exact honly n hc
+    · rintro (rfl | rfl)
+      · exact ⟨by show t.top ∈ List.range _; rw [List.mem_range]; omega, hLt, hCt⟩
+      · exact ⟨by show t.bot ∈ List.range _; rw [List.mem_range]; omega, hLb, hCb⟩
+  · intro n
+    rw [mem_comp_bcs]
+    constructor
+    · rintro ⟨hb, hc⟩
+      rcases honly n hc with rfl | rfl
+      · exact absurd hb (hT.par_free _ (tubeEdge_mem (r := r) hpr ht))
+      · rfl
+    · rintro rfl
+      exact ⟨mem_layoutBCs.2 ⟨pr, hpr, t, ht, rfl⟩, hCb⟩
+
+end Layout
+
+/-! ## assembly (`fj`, `RJ`) over a commutative ring -/
+
+section Assembly
+variable {K : Type} [CommRing K]
+
+/-- Kronecker delta -/
+def delta (a b : Nat) : K := if a = b then 1 else 0
+
+theorem sgn_lt {ii jj : Nat} (h : ii < jj) : (sgn ii jj : K) = -1 := by
+  unfold sgn; rw [if_neg (by omega), if_pos h]
+
+theorem sgn_gt {ii jj : Nat} (h : jj < ii) : (sgn ii jj : K) = 1 := by
+  unfold sgn; rw [if_pos h]
+
+theorem sgn_eq (ii : Nat) : (sgn ii ii : K) = 0 := by
+  unfold sgn; simp
+
+/-- the spring is handed `d(smaller index) - d(larger index)`, whichever way the edge is reported -/
+theorem fjDisp_lt (d : Nat → K) {ii jj : Nat} (h : ii < jj) : fjDisp d ii jj = d ii - d jj := by
+  unfold fjDisp; rw [sgn_lt h]; ring
+
+theorem fjDisp_symm (d : Nat → K) (ii jj : Nat) : fjDisp d ii jj = fjDisp d jj ii := by
+  rcases Nat.lt_trichotomy ii jj with h | h | h
+  · rw [fjDisp_lt d h]; unfold fjDisp; rw [sgn_gt h]; ring
+  · subst h; rfl
+  · rw [fjDisp_lt d h]; unfold fjDisp; rw [sgn_gt h]; ring
+
+/-- one edge: `+f` on the row of the smaller index, `-f` on the row of the larger one, where `f` is the
+spring force for `d(smaller) - d(larger)` -/
+theorem fjF_lt (law : Law K) (d : Nat → K) {ii jj : Nat} (h : ii < jj) (r : Nat) :
+    fjF law d ii jj r = (delta r ii - delta r jj) * (law (d ii - d jj)).1 := by
+  unfold fjF
+  simp only [fjDisp_lt d h, sgn_lt h, delta]
+  split_ifs <;> ring
+
+theorem fjF_symm (law : Law K) (d : Nat → K) (ii jj r : Nat) : fjF law d ii jj r = fjF law d jj ii r := by
+  rcases Nat.lt_trichotomy ii jj with h | h | h
+  · rw [fjF_lt law d h]
+    unfold fjF
+    simp only [fjDisp_symm d jj ii, fjDisp_lt d h, sgn_gt h, delta]
+    split_ifs <;> ring
+  · subst h; rfl
+  · rw [fjF_lt law d h]
+    unfold fjF
+    simp only [fjDisp_symm d ii jj, fjDisp_lt d h, sgn_gt h, delta]
+    split_ifs <;> ring
+
+theorem ite_and_mul (a b : Prop) [Decidable a] [Decidable b] (k : K) :
+    (if a ∧ b then k else 0) = k * (if a then 1 else 0) * (if b then 1 else 0) := by
+  by_cases ha : a <;> by_cases hb : b <;> simp [ha, hb]
+
+theorem fjJ_eq (law : Law K) (d : Nat → K) (ii jj r c : Nat) :
+    fjJ law d ii jj r c = (law (fjDisp d ii jj)).2 * (delta r ii - delta r jj) * (delta c ii - delta c jj) := by
+  unfold fjJ
+  simp only [ite_and_mul, delta]
+  ring
+
+theorem fjJ_symm (law : Law K) (d : Nat → K) (ii jj r c : Nat) : fjJ law d ii jj r c = fjJ law d jj ii r c := by
+  rw [fjJ_eq, fjJ_eq, fjDisp_symm d ii jj]; ring
+
+/-- a linear spring carries `k * (d_i - d_j)` and contributes `k (e_i - e_j)(e_i - e_j)ᵀ d` -/
+theorem fjF_linear (k : K) (d : Nat → K) (ii jj r : Nat) :
+    fjF (linearLaw k) d ii jj r = k * (delta r ii - delta r jj) * (d ii - d jj) := by
+  rcases Nat.lt_trichotomy ii jj with h | h | h
+  · rw [fjF_lt _ d h]; simp only [linearLaw]; ring
+  · subst h; unfold fjF; rw [sgn_eq]; ring
+  · rw [fjF_symm, fjF_lt _ d h]; simp only [linearLaw]; ring
+
+theorem fjJ_linear (k : K) (d : Nat → K) (ii jj r c : Nat) :
+    fjJ (linearLaw k) d ii jj r c = k * (delta r ii - delta r jj) * (delta c ii - delta c jj) := by
+  rw [fjJ_eq]; rfl
+
+/-- linear springs `(i, j, k)` as edges in dof numbering -/
+def linEdges (l : List (Nat × Nat × K)) : List (DEdge K) := l.map (fun e => ⟨e.1, e.2.1, linearLaw e.2.2⟩)
+
+/-- entry `(r, c)` of `K = Σ k_e (e_i - e_j)(e_i - e_j)ᵀ` -/
+def stiffness (l : List (Nat × Nat × K)) (r c : Nat) : K :=
+  (l.map (fun e => e.2.2 * (delta r e.1 - delta r e.2.1) * (delta c e.1 - delta c e.2.1))).sum
+
+theorem assembleF_linear (l : List (Nat × Nat × K)) (d : Nat → K) (r : Nat) :
+    assembleF (linEdges l) d r =
+      (l.map (fun e => e.2.2 * (delta r e.1 - delta r e.2.1) * (d e.1 - d e.2.1))).sum := by
+  induction l with
+  | nil => rfl
+  | cons e l ih =>
+    show fjF (linearLaw e.2.2) d e.1 e.2.1 r + assembleF (linEdges l) d r = _
+    rw [ih, fjF_linear]; simp
+
+theorem assembleJ_linear (l : List (Nat × Nat × K)) (d : Nat → K) (r c : Nat) :
+    assembleJ (linEdges l) d r c = stiffness l r c := by
+  induction l with
+  | nil => rfl
+  | cons e l ih =>
+    show fjJ (linearLaw e.2.2) d e.1 e.2.1 r c + assembleJ (linEdges l) d r c = _
+    rw [ih, fjJ_linear]; simp [stiffness]
+
+theorem sum_delta (d : Nat → K) {n i : Nat} (h : i < n) :
+    (Finset.range n).sum (fun c => (delta c i : K) * d c) = d i := by
+  unfold delta
+  simp [Finset.sum_ite_eq', h]
+
+/-- `F_int = K d` when every dof index is below `n` -/
+theorem assembleF_eq_K_mul (l : List (Nat × Nat × K)) (d : Nat → K) (r n : Nat)
+    (hn : ∀ e ∈ l, e.1 < n ∧ e.2.1 < n) :
+    assembleF (linEdges l) d r = (Finset.range n).sum (fun c => stiffness l r c * d c) := by
+  rw [assembleF_linear]
+  induction l with
+  | nil => simp [stiffness]
+  | cons e l ih =>
+    have h1 := hn e (List.mem_cons_self ..)
+    have := ih (fun x hx => hn x (List.mem_cons_of_mem _ hx))
+    simp only [List.map_cons, List.sum_cons, stiffness] at this ⊢
+    rw [this]
+    simp only [add_mul, Finset.sum_add_distrib]
+    congr 1
+    have : ∀ c, e.2.2 * (delta r e.1 - delta r e.2.1) * (delta c e.1 - delta c e.2.1) * d c =
+        e.2.2 * (delta r e.1 - delta r e.2.1) * (delta c e.1 * d c) -
+        e.2.2 * (delta r e.1 - delta r e.2.1) * (delta c e.2.1 * d c) := fun c => by ring
+    simp only [this, Finset.sum_sub_distrib, ← Finset.mul_sum, sum_delta d h1.1, sum_delta d h1.2]
+    ring
+
+end Assembly
+
+/-! ## further facts used by the property theorems -/
+
+theorem validateSolve_ok_bcs {c : Net} (h : validateSolve c = .ok ()) : ∃ b, b ∈ c.bcs := by
+  unfold validateSolve at h
+  split_ifs at h with h1 h2 h3
+  cases hb : c.bcs with
+  | nil => rw [hb] at h2; simp at h2
+  | cons b bs => exact ⟨b, List.mem_cons_self ..⟩
+
+section Layout2
+variable {r : Opt} {ps : List (Opt × Nat)}
+
+/-- every tube edge of the contracted network is the edge of a tube of the receiver, hanging on the
+representative of its top node -/
+theorem tube_edge_origin {e : Edge} (he : e ∈ springEdges (buildNetwork r ps)) (ht : e.isTube = true) :
+    ∃ pr ∈ layout ps, ∃ t ∈ pr.tubes, e = ⟨(L r ps).get t.top, t.bot, .tube t.id⟩ := by
+  obtain ⟨e0, he0, _, _, rfl⟩ := mem_springEdges.1 he
+  have ht0 : e0.isTube = true := by simpa using ht
+  obtain ⟨pr, hpr, h | ⟨t, htt, h | h⟩⟩ := mem_layoutEdges.1 he0
+  · subst h; cases ht0
+  · subst h; cases ht0
+  · subst h
+    refine ⟨pr, hpr, t, htt, ?_⟩
+    show (⟨(L r ps).get t.top, (L r ps).get t.bot, _⟩ : Edge) = _
+    rw [L_bot hpr htt]
+
+/-- a numeric panel connection stays in the network, in the same component as its tube -/
+theorem stiff_link {pr : PanelRec} (hpr : pr ∈ layout ps) {q : Rat} (ho : pr.opt = .stiff q)
+    {t : TubeRec} (ht : t ∈ pr.tubes) :
+    ∃ c ∈ splitDisconnect (contractBy (L r ps) (buildNetwork r ps)),
+      (⟨(L r ps).get pr.node, t.top, .conn (.stiff q)⟩ : Edge) ∈ c.edges ∧
+      (⟨t.top, t.bot, .tube t.id⟩ : Edge) ∈ c.edges := by
+  have hT := buildNetwork_treeNet r ps
+  have hnr : pr.opt ≠ .rigid := by rw [ho]; simp
+  have hLt : (L r ps).get t.top = t.top := by rw [L_top hpr ht]; simp [hnr]
+  obtain ⟨c, hc, hE, _⟩ := hT.tube_in_one (tubeEdge_mem (r := r) hpr ht) rfl
+  have hE' : (⟨t.top, t.bot, .tube t.id⟩ : Edge) ∈ c.edges := by
+    have : relabel (L r ps) ⟨t.top, t.bot, .tube t.id⟩ = ⟨t.top, t.bot, .tube t.id⟩ := by
+      show (⟨(L r ps).get t.top, (L r ps).get t.bot, _⟩ : Edge) = _
+      rw [hLt, L_bot hpr ht]
+    rw [← this]; exact hE
+  refine ⟨c, hc, ?_, hE'⟩
+  obtain ⟨r', _, _, _, rfl, _⟩ := mem_components.1 hc
+  have h2 := mem_comp_edges.1 hE'
+  have hlink : (⟨(L r ps).get pr.node, t.top, .conn (.stiff q)⟩ : Edge) ∈ springEdges (buildNetwork r ps) := by
+    refine mem_springEdges.2 ⟨_, panelEdge_mem (r := r) hpr ht, ?_, ?_, ?_⟩
+    · simp [Edge.isRigid, ho]
+    · simp [Edge.isDisc, ho]
+    · show (⟨(L r ps).get pr.node, (L r ps).get t.top, .conn pr.opt⟩ : Edge) = _
+      rw [hLt, ho]
+  refine mem_comp_edges.2 ⟨hlink, ?_⟩
+  have := hT.clab_edge hlink
+  show (C r ps).get ((L r ps).get pr.node) = r'
+  rw [← this]; exact h2.2
+
+end Layout2
+
+theorem TreeOrd.nodup {es : List Edge} {b : Nat} (h : TreeOrd b es) : es.Nodup := by
+  induction es generalizing b with
+  | nil => exact List.nodup_nil
+  | cons a es ih =>
+    refine List.nodup_cons.2 ⟨fun ha => ?_, ih h.2.2⟩
+    have := (h.2.2.lt a ha).2; omega
+
+theorem TreeNet.comp_edges_nodup {net : Net} {N : Nat} (h : TreeNet net N) (r : Nat) :
+    (comp net r).edges.Nodup := by
+  have : TreeOrd 1 (comp net r).edges := by
+    unfold comp component; exact h.springEdges_ord.filter _
+  exact this.nodup
+
 end SrModel.Spring
